@@ -293,6 +293,11 @@ def elif_like_if(acc, idx, n):
                 for op in CMP_OPS:
                     holds = {'==': lval == text, '!=': lval != text}.get(op)        # None: not judged, only compared between the forms
                     conds.append((f'{lhs} {op} {q}{text}{q}', holds))
+    # a numeral between quotes is still numeric: both sides numeric -> integers are compared, whatever the spelling
+    for (lhs, lv), (text, tv) in itertools.product((('SN', 12), ('9', 9), ('$0C', 12), ('SA', 1)), (('12', 12), ('0x0C', 12), ('100', 100), ('10', 10), ('09', 9), ('1', 1))):
+        for q in ('"', "'"):
+            for op, fn in CMP_OPS.items():
+                conds.append((f'{lhs} {op} {q}{text}{q}', fn(lv, tv)))
     forms = {'if': '#if {c}\n    .byte 34\n#else\n    .byte 68\n#endif\n',
              'elif': '#if 0\n    .byte 17\n#elif {c}\n    .byte 34\n#else\n    .byte 68\n#endif\n',
              'second-elif': '#if SA == 2\n    .byte 17\n#elif 0\n    .byte 18\n#elif {c}\n    .byte 34\n#else\n    .byte 68\n#endif\n'}
